@@ -142,10 +142,14 @@ def make_class(base):
         def solve(self, init=None):
             rec = self._rec
             pm = ProtoModel(_export(self.model))
-            if rec.initial is None:
+            want = getattr(rec, "_want_initial", None)
+            if rec.initial is None or (want is not None and rec.traces and rec.traces[0] is want):
+                # the model as it stands when the (first) enumeration starts; a solve before that - a peek at a
+                # partially built model - does not define it
                 rec.initial = pm
                 if len(set(pm.names)) != len(pm.names):
                     rec.name_collisions += 1
+            rec._want_initial = None
             rec.solves += 1
             rec.last = None
             rec.last_attempt = pm
@@ -161,6 +165,7 @@ def make_class(base):
             rec = self._rec
             tr = Trace(gap)
             rec.traces.append(tr)
+            rec._want_initial = tr
             try:
                 for item in super().solutions(gap, best_obj, limit, iteration, init):
                     _on_yield(rec, tr, item, best_obj)
@@ -358,6 +363,9 @@ def enumerate_model(pm, max_bin=16):
     # cheap pruning: constraints that only mention binaries
     binset = set(bins)
     pure = [c for c in pm.cons if set(c[0]) <= binset]
+    # general (non-binary) integer variables make the rest a MIP: solved with SCIP instead of the LP solver
+    general_int = any(pm.integer[i] and i not in binset and pm.ub[i] - pm.lb[i] > 0.5 for i in range(len(pm.names)))
+    inner = "SCIP" if general_int else "GLOP"
     for bits in itertools.product((0, 1), repeat=len(bins)):
         val = dict(zip(bins, bits))
         ok = True
@@ -368,7 +376,7 @@ def enumerate_model(pm, max_bin=16):
                 break
         if not ok:
             continue
-        st, obj = resolve(pm, "GLOP", fix={i: float(b) for i, b in val.items()})
+        st, obj = resolve(pm, inner, fix={i: float(b) for i, b in val.items()})
         if st == "optimal":
             out[tuple(sorted(pm.names[i] for i, b in val.items() if b))] = obj
     return out
